@@ -1,5 +1,7 @@
 """Exact linear algebra over ℚ (fractions.Fraction): the UNVERIFIED certificate search.
-Everything it produces is checked by the verified Lean checkers (Model/Cert.lean)."""
+Everything it produces is checked by the verified Lean checkers (Model/Cert.lean).
+Since T7 the verdicts of C14 come from the verified decision procedure (driver ops tzeng_equiv / tzeng_min); this search
+and its certificates are the independent cross-check (props/c14.py: the two must agree)."""
 from fractions import Fraction
 
 
